@@ -10,16 +10,12 @@ import (
 	"github.com/sqlc-dev/doubleclick/token"
 )
 
-// parseHexToFloat converts a hex string (with 0x prefix) to float64
-// Used for hex numbers that overflow uint64
-func parseHexToFloat(s string) (float64, bool) {
-	if !strings.HasPrefix(strings.ToLower(s), "0x") {
-		return 0, false
-	}
-	hexPart := s[2:]
+// parseRadixToFloat converts a hex, binary or octal integer literal (0x / 0b / 0o prefix, optional
+// '_' digit separators, as strconv.ParseUint(s, 0, 64) accepts them) to float64.
+// Used for literals that overflow uint64.
+func parseRadixToFloat(s string) (float64, bool) {
 	bi := new(big.Int)
-	_, ok := bi.SetString(hexPart, 16)
-	if !ok {
+	if _, ok := bi.SetString(s, 0); !ok {
 		return 0, false
 	}
 	f := new(big.Float).SetInt(bi)
@@ -1051,10 +1047,10 @@ func (p *Parser) parseNumber() ast.Expression {
 				// Too large for int64/uint64, try as float64
 				var f float64
 				var ok bool
-				if isHex {
-					// For hex numbers, use parseHexToFloat since strconv.ParseFloat
-					// doesn't handle hex integers without 'p' exponent
-					f, ok = parseHexToFloat(value)
+				if isHex || isBin || isOctal {
+					// strconv.ParseFloat does not read prefixed integers
+					// (hex only with a 'p' exponent)
+					f, ok = parseRadixToFloat(value)
 				} else {
 					var ferr error
 					f, ferr = strconv.ParseFloat(value, 64)
